@@ -190,9 +190,12 @@ def run(ctx):
     for name, w in width.items():
         f = prog.fn(name)
         facts = {}
-        for lv, a, r in assigned_lvalues(f):
-            if r is not None:
-                facts.setdefault(lv, []).append(f.s(r))
+        # the init itself and static helpers of the same file it calls (a helper extracted from the init still belongs to it)
+        group = [f] + [g_ for c_ in f.calls() for g_ in prog.fns.get(c_.get('callee') or '', []) if g_.static and g_.file == f.file]
+        for g_ in group:
+            for lv, a, r in assigned_lvalues(g_):
+                if r is not None:
+                    facts.setdefault(lv, []).append(g_.s(r))
         miss = []
         bw = facts.get('psf->blockwidth', [])
         if w is None:
@@ -201,7 +204,8 @@ def run(ctx):
         elif '(%s * psf->sf.channels)' % w not in bw:
             miss.append('blockwidth is %s, expected %s * channels' % (bw, w))
         dl = facts.get('psf->datalength', [])
-        if not any('(psf->dataend - psf->dataoffset) : (psf->filelength - psf->dataoffset)' in x for x in dl):
+        # both sources of the length must be there, as the two arms of a ?: or of an if / else
+        if not (any('(psf->dataend - psf->dataoffset)' in x for x in dl) and any('(psf->filelength - psf->dataoffset)' in x for x in dl)):
             miss.append('datalength %s' % dl)
         fr = facts.get('psf->sf.frames', [])
         if not any('(psf->datalength / psf->blockwidth)' in x for x in fr):
